@@ -78,7 +78,19 @@ class InjectedValueError(ValueError):
         self.node = node
 
 
-EXC_KINDS = {"valueerror": InjectedValueError, "plain": InjectedFault, "noargs": InjectedNoArgs, "typeerror_kw": InjectedTypeError, "keyerror": InjectedKeyError}
+class InjectedStopIteration(StopIteration):
+    """The classic bare next() that finds nothing: a node function may raise StopIteration like any other exception.
+    (Only meaningful for plain synchronous functions: inside coroutines and generators Python itself turns it into RuntimeError.)"""
+
+    hg_injected = True
+
+    def __init__(self, fid: Any, node: str) -> None:
+        super().__init__(f"injected stop {fid} in {node}")
+        self.fid = fid
+        self.node = node
+
+
+EXC_KINDS = {"stopiteration": InjectedStopIteration, "valueerror": InjectedValueError, "plain": InjectedFault, "noargs": InjectedNoArgs, "typeerror_kw": InjectedTypeError, "keyerror": InjectedKeyError}
 InjectedFault.hg_injected = True
 
 
